@@ -113,6 +113,14 @@ def check_program(ctx, prog, want):
         ctx.fail(sig if sig in KNOWN else "optimized-differs", {"program": prog}, "optimized and unoptimized results differ")
 
 
+BCAST_PATTERNS = (
+    ("binary_new", "getitem_explicit"), ("binary_new", "unary", "getitem_explicit"), ("binary_new", "transpose", "getitem_explicit"),
+    ("binary_new", "getitem_explicit", "getitem_explicit"), ("expand_dims", "binary_new", "getitem_explicit"),
+    ("binary_new", "reduce", "getitem_explicit"), ("binary_new", "binary_new", "getitem_explicit"),
+    ("broadcast_to", "getitem_explicit"), ("binary_new", "rechunk", "getitem_explicit"),
+)
+
+
 def run(ctx, replay=None):
     rng = ctx.rng
     ctx.rule = (
@@ -144,6 +152,10 @@ def run(ctx, replay=None):
             mini.append((prog, g.env[prog[-1]["out"]]))
         if i < 3:
             ctx.sample({"program": prog})
+    # directed chains: pushdown rules meet slices with explicit bounds and both step signs over broadcasting operands
+    for pat, g in P.directed_programs(rng, ctx.scale(400, 4000), BCAST_PATTERNS):
+        ctx.count(("directed", pat))
+        check_program(ctx, g.prog, g.env[g.prog[-1]["out"]])
     X.flush(ctx)
     # the model's own optimizer on the programs that lie inside the mini-language
     X.model_optimize_stream(ctx, mini)
